@@ -379,10 +379,10 @@ def tampered(ck, rng, vi):
 def run(ck):
     rng = ck.rng('c11', ck.shard[0])
     function_level(ck, rng)
-    for i in range(240 if not ck.thorough() else 8000):
+    for i in range(240 if not ck.thorough() else 30000):
         if ck.mine(i):
             end_to_end(ck, ck.rng('e2e', i), i)
-    for rep in range(1 if not ck.thorough() else 10):
+    for rep in range(1 if not ck.thorough() else 40):
         for vi in range(34):
             if ck.mine(vi + rep):
                 tampered(ck, ck.rng('tamper', vi, rep), vi)
